@@ -23,6 +23,8 @@ ASSUME = [
 def run_case(ctx, mr, case):
     if case.get('sib'):
         return sibling_case(ctx, case)
+    if case.get('shared'):
+        return shared_state_case(ctx, case)
     v, bio, off, sz = cc.open_view(case)
     base = bytes.fromhex(case['base'])
     key = bytes.fromhex(case['key'])
@@ -90,6 +92,64 @@ def run_case(ctx, mr, case):
         ctx.stat('op_' + op[0])
 
 
+class ReadOnlyBytesIO(__import__('io').BytesIO):
+    """what a file opened 'rb' is: every way of changing it is refused"""
+
+    def writable(self):
+        return False
+
+    def write(self, b):
+        raise __import__('io').UnsupportedOperation('write')
+
+
+def shared_state_case(ctx, case):
+    """the wrapper shares two things with the rest of the program: the file underneath (here one that refuses writes, as every file a
+    reader opened 'rb' does) and the engine (whose key for the slot may arrive late, be replaced, or be replaced in a CLONE of the
+    engine).  A refused call changes nothing; every read that builds its cipher afresh decrypts under the key the engine holds for the
+    slot then; what happens to a clone does not reach the original"""
+    import random
+    from pyctr.fileio import SubsectionIO
+    rng = random.Random(case['seed'])
+    twl = case['twl']
+    mode = 'twl' if twl else 'ctr'
+    slot = 0x03 if twl else 0x2C
+    key = bytes.fromhex(case['key'])
+    base = bytes.fromhex(case['base'])
+    off, sz = (case['off'], case['sz']) if case['kind'] == 'window' else (0, len(base))
+    bio = ReadOnlyBytesIO(base)
+    e = cc.make_engine(key, slot)
+    if case['late']:
+        del e.key_normal[slot]
+    under = bio if case['kind'] == 'plain' else SubsectionIO(bio, off, sz)
+    v = e.create_ctr_io(slot, under, case['ctr'])
+    ct = base[off:off + sz]
+
+    def fail(sig, what, expected, observed):
+        ctx.diff('oracle', f'{mode}-{case["kind"]}:shared:{sig}', case, expected, observed, f'{mode} wrapper over a read-only {case["kind"]} file: {what}')
+    c = fc.Contract(v, cc.stream_xor(key, case['ctr'], ct, twl), fail, writable=False,
+                    probe_outside=(lambda: bio.getvalue()[:off] + b'|' + bio.getvalue()[off + sz:]) if case['kind'] == 'window' else None)
+    if case['late']:
+        c.read_error = 'Pyctr1'
+    ctx.stat('shared_state_histories')
+    for op in case['ops']:
+        if op[0] in ('k', 'c'):
+            newkey = bytes.fromhex(op[1])
+            if op[0] == 'k':
+                e.set_normal_key(slot, newkey)
+                c.content = bytearray(cc.stream_xor(newkey, case['ctr'], ct, twl))
+                c.read_error = None
+                ctx.stat('rekeyed')
+            else:
+                other = e.clone()
+                other.set_normal_key(slot, newkey)          # a second content installing its own key in its own copy of the engine
+                ctx.stat('clone_rekeyed')
+            v.seek(v.tell())                                # from here on every read builds its cipher afresh
+            continue
+        c.step(op)
+    if bio.getvalue() != base:
+        fail('wrote-underlying', 'the read-only file underneath was changed', 'unchanged', 'changed')
+
+
 def sibling_case(ctx, case):
     """two wrappers over two windows of ONE base file, used in turn without seeks in between (and the base file moved by its owner):
     what a wrapper returns depends on its own history only"""
@@ -134,6 +194,19 @@ def gen_cases(ctx, rng, writes):
         yield dict(sib=True, twl=rng.random() < 0.5, base=pyenv.rbytes(rng, 3 + a + gap + b + 2).hex(), wins=[[3, a], [3 + a + gap, b]],
                    keys=[pyenv.rbytes(rng, 16).hex(), pyenv.rbytes(rng, 16).hex()], ctrs=[rng.getrandbits(100), rng.getrandbits(100)],
                    steps=rng.randrange(4, 14), seed=rng.randrange(1 << 30))
+    for _ in range(ctx.n(150, 4000)):
+        kind = rng.choice(['plain', 'window'])
+        sz = rng.choice([0, 1, 16, 17, 33, 48, 100])
+        off = rng.choice([1, 16, 23]) if kind == 'window' else 0
+        late = rng.random() < 0.3
+        ops = fc.gen_ops(rng, sz, rng.randrange(2, 12), writable=False, whences=(0, 0, 1, 2), refused_writes=True, spellings=True)
+        for _k in range(rng.randrange(0, 3)):
+            ops.insert(rng.randrange(1 if late else 0, len(ops) + 1), [rng.choice('kc'), pyenv.rbytes(rng, 16).hex()])
+        if late and not any(o[0] == 'k' for o in ops):
+            ops.append(['k', pyenv.rbytes(rng, 16).hex()])
+            ops += [['s', 0, 0], ['r', -1]]
+        yield dict(shared=True, twl=rng.random() < 0.5, kind=kind, off=off, sz=sz, base=pyenv.rbytes(rng, off + sz + (3 if kind == 'window' else 0)).hex(),
+                   key=pyenv.rbytes(rng, 16).hex(), ctr=rng.getrandbits(120), late=late, ops=ops, seed=rng.randrange(1 << 30))
     for _ in range(ctx.n(500, 20000)):
         case = cc.gen_case(rng, writes)
         # keep every reachable position (large cases seek up to 0x4000 + 17*12, writes extend) below 2^128 blocks
